@@ -1735,6 +1735,89 @@ func buildStubs() map[string]stubFn {
 		}
 		return err
 	}
+	// pipelines: commands are collected and delivered one by one through vpProcess on Exec
+	type pipeState struct {
+		addr string
+		cmds []Value
+	}
+	m["(*"+rp9+".Client).Pipeline"] = func(ex *Exec, c *frame, fn *ssa.Function, a []Value) Value {
+		p, _ := a[0].(*Value)
+		addr, ok := ex.extra[fmt.Sprintf("redisAddr:%p", p)].(string)
+		if !ok {
+			panic(engineErr("Pipeline on a client not obtained from server.Client.Get"))
+		}
+		pt := ex.eng.namedType(rp9, "Pipeline")
+		pp := new(Value)
+		*pp = ex.zero(pt)
+		ex.extra[fmt.Sprintf("pipe:%p", pp)] = &pipeState{addr: addr}
+		return IfaceV{t: types.NewPointer(pt), v: pp}
+	}
+	pipeOf := func(ex *Exec, v Value) *pipeState {
+		ps, ok := ex.extra[fmt.Sprintf("pipe:%p", v.(*Value))].(*pipeState)
+		if !ok {
+			panic(engineErr("unknown pipeline"))
+		}
+		return ps
+	}
+	m["(*"+rp9+".Pipeline).Do"] = func(ex *Exec, c *frame, fn *ssa.Function, a []Value) Value {
+		ps := pipeOf(ex, a[0])
+		newCmd := ex.eng.pkgByPath[rp9].Func("NewCmd")
+		cmd := ex.callSSA(c, newCmd, []Value{a[1], a[2]}, nil)
+		ex.effect()
+		ps.cmds = append(ps.cmds, cmd)
+		return cmd
+	}
+	m["(*"+rp9+".Pipeline).Len"] = func(ex *Exec, c *frame, fn *ssa.Function, a []Value) Value {
+		return ex.i64(int64(len(pipeOf(ex, a[0]).cmds)))
+	}
+	m["(*"+rp9+".Pipeline).Discard"] = func(ex *Exec, c *frame, fn *ssa.Function, a []Value) Value {
+		pipeOf(ex, a[0]).cmds = nil
+		return nil
+	}
+	m["(*"+rp9+".Pipeline).Exec"] = func(ex *Exec, c *frame, fn *ssa.Function, a []Value) Value {
+		ps := pipeOf(ex, a[0])
+		vp := ex.entryPkg.Func("vpProcess")
+		if vp == nil {
+			panic(engineErr("harness package has no vpProcess"))
+		}
+		cmderT := ex.eng.namedType(rp9, "Cmder")
+		var first Value = IfaceV{}
+		d := make([]Value, 0, len(ps.cmds))
+		for _, cv := range ps.cmds {
+			ex.effect()
+			cmdI := IfaceV{t: types.NewPointer(ex.eng.namedType(rp9, "Cmd")), v: cv}
+			err := ex.callSSA(c, vp, []Value{ex.mkStr(ps.addr), a[1], cmdI}, nil)
+			if setErr := ex.eng.lookupMethod(cmdI.t, nil, "SetErr"); setErr != nil {
+				ex.callSSA(c, setErr, []Value{cv, err}, nil)
+			}
+			if e, _ := err.(IfaceV); e.t != nil {
+				if f, _ := first.(IfaceV); f.t == nil {
+					first = err
+				}
+			}
+			d = append(d, cmdI)
+		}
+		_ = cmderT
+		ps.cmds = nil
+		return Tuple{ex.mkDenseSlice(d), first}
+	}
+	m["(*"+olricPath+"/internal/server.Client).Pick"] = func(ex *Exec, c *frame, fn *ssa.Function, a []Value) Value {
+		// any member the client knows about may be picked
+		var keys []string
+		prefix := fmt.Sprintf("redisClient:%p:", a[0])
+		for k := range ex.extra {
+			if strings.HasPrefix(k, prefix) {
+				keys = append(keys, k)
+			}
+		}
+		if len(keys) == 0 {
+			return Tuple{(*Value)(nil), ex.errorValue("no available client found")}
+		}
+		sort.Strings(keys)
+		k := ex.choose(len(keys))
+		ex.recordConcreteInput("env", "pick", uint64(k))
+		return Tuple{ex.extra[keys[k]].(*Value), ex.nilError()}
+	}
 	m[rp9+"/internal/util.StringToBytes"] = m[olricPath+"/internal/util.StringToBytes"]
 	m[rp9+"/internal/util.BytesToString"] = m[olricPath+"/internal/util.BytesToString"]
 	m["strings.SplitN"] = func(ex *Exec, c *frame, fn *ssa.Function, a []Value) Value {
